@@ -111,11 +111,22 @@ func VrfC02Worker() {
 			op = vrfOp{unpin: vrf_choice("unpin", 2) == 1, cid: vrf_choice("cid", 2)}
 		}
 		pin := api.PinCid(vrfCid(op.cid))
+		// every submission comes with the context of the request that made it; the
+		// request may be over (its context cancelled) as soon as it was answered,
+		// long before the worker gets to the operation
+		rctx, rcancel := context.WithCancel(context.Background())
 		var err error
 		if op.unpin {
-			err = css.LogUnpin(ctx, pin)
+			err = css.LogUnpin(rctx, pin)
 		} else {
-			err = css.LogPin(ctx, pin)
+			err = css.LogPin(rctx, pin)
+		}
+		if choose {
+			if vrf_choice("request_over_once_answered", 2) == 1 {
+				rcancel()
+			}
+		} else if seq%2 == 1 {
+			rcancel()
 		}
 		if err == nil {
 			accepted = append(accepted, op)
